@@ -329,3 +329,166 @@ theorem loop_oneNormal (swr : Swr) (env : Env) (w : World) (sc : Sched) (h : Has
   exact one a b fa fb va vb hab hfa hfb hca hcb hva hvb (by rw [hsa', hna]) (by rw [hsb', hnb])
 
 end Kvass.Loop
+
+namespace Kvass.Coord
+open Kvass Kvass.Spec
+
+/-- after `gcTargets`, a target that exactly two in-sync shards reported in normal state (both
+    scraped it three times) is held in normal state by at most one in-sync shard -/
+theorem startCS_oneNormal_of_dup (inp : Input) (hnd : ∀ p ∈ inp.probes, (reported p).keys.Nodup)
+    {i j : Nat} {pi pj : Probe} {h : Hash} {vi vj : St} (hij : i < j) (ha : h ∈ inp.active)
+    (hpi : inp.probes[i]? = some pi) (hsi : inSync pi = true) (hri : (reported pi).get h = some vi)
+    (hni : vi.state = .normal) (h3i : 3 ≤ vi.times)
+    (hpj : inp.probes[j]? = some pj) (hsj : inSync pj = true) (hrj : (reported pj).get h = some vj)
+    (hnj : vj.state = .normal) (h3j : 3 ≤ vj.times)
+    (hothers : ∀ k pk, inp.probes[k]? = some pk → k ≠ i → k ≠ j → inSync pk = true → (reported pk).get h = none) :
+    OneNormalAt h (startCS inp) := by
+  have hi : (infos0 inp)[i]? = some (getInfo pi).1 := by rw [infos0_get, hpi]; rfl
+  have hj : (infos0 inp)[j]? = some (getInfo pj).1 := by rw [infos0_get, hpj]; rfl
+  have hnd0 : ∀ (k : Nat) (s : SI), (infos0 inp)[k]? = some s → s.scraping.keys.Nodup := by
+    intro k s hk
+    obtain ⟨pk, hpk, rfl⟩ := infos0_get_some hk
+    rw [getInfo_scraping]; exact hnd pk (List.mem_of_getElem? hpk)
+  have hdup := gc_duplicate_resolved inp.opt inp.active (infos0 inp) i j (getInfo pi).1 (getInfo pj).1 h vi vj hnd0 ha hij
+    hi (by rw [getInfo_changeable]; exact hsi) (by rw [getInfo_scraping]; exact hri) hni h3i
+    hj (by rw [getInfo_changeable]; exact hsj) (by rw [getInfo_scraping]; exact hrj) hnj h3j
+    (by
+      intro k sk hk hki hkj hch
+      obtain ⟨pk, hpk, rfl⟩ := infos0_get_some hk
+      rw [getInfo_changeable] at hch
+      rw [getInfo_scraping]
+      exact hothers k pk hpk hki hkj hch)
+  have inv := gc_inv inp.opt inp.active (infos0 inp)
+  have e : (startCS inp).shards = gc inp.opt inp.active (infos0 inp) := rfl
+  -- a changeable holder after gc is one of the two
+  have holder : ∀ (a : Nat) (sa : SI) (va : St), (startCS inp).shards[a]? = some sa → sa.changeable = true →
+      sa.scraping.get h = some va → a = i ∨ a = j := by
+    intro a sa va hsa hca hva
+    rw [e] at hsa
+    obtain ⟨s0, h0, hfl, _, hsub, _⟩ := inv.same a sa hsa
+    obtain ⟨v0, hv0, _⟩ := hsub h va hva
+    obtain ⟨pa, hpa, rfl⟩ := infos0_get_some h0
+    rw [getInfo_scraping] at hv0
+    rw [hfl, getInfo_changeable] at hca
+    apply Classical.byContradiction
+    intro hno
+    simp only [not_or] at hno
+    rw [hothers a pa hpa hno.1 hno.2 hca] at hv0
+    cases hv0
+  have hent : ∀ (a : Nat) (sa : SI) (va : St), (startCS inp).shards[a]? = some sa →
+      sa.scraping.get h = some va → entry (gc inp.opt inp.active (infos0 inp)) a h = some va := by
+    intro a sa va hsa hva
+    unfold entry
+    rw [e] at hsa
+    rw [hsa]; exact hva
+  intro a b sa sb va vb hab hsa hsb hca hcb hva hvb _ _
+  have ha' := holder a sa va hsa hca hva
+  have hb' := holder b sb vb hsb hcb hvb
+  have ea := hent a sa va hsa hva
+  have eb := hent b sb vb hsb hvb
+  have hne : i ≠ j := by omega
+  cases hL : Gen.gcLess inp.opt (getInfo pi).1.rt (getInfo pj).1.rt i j with
+  | true =>
+    have := (hdup.1 hL).1
+    rcases ha' with rfl | rfl
+    · rw [this] at ea; cases ea
+    · rcases hb' with rfl | rfl
+      · rw [this] at eb; cases eb
+      · exact hab rfl
+  | false =>
+    have := (hdup.2 hL).2
+    rcases ha' with rfl | rfl
+    · rcases hb' with rfl | rfl
+      · exact hab rfl
+      · rw [this] at eb; cases eb
+    · rw [this] at ea; cases ea
+
+end Kvass.Coord
+
+namespace Kvass.Loop
+open Kvass Kvass.Coord Kvass.Spec
+
+/-- **closed loop: a duplicate is resolved by one fault-free cycle.**  If exactly two running
+    sidecars report a discovered target, both in normal state and scraped three times, then after the
+    requests of one full, crash-free, fault-free cycle no two running sidecars report it in normal state. -/
+theorem loop_duplicate_resolved (swr : Swr) (env : Env) (w : World) (sc : Sched)
+    (hrep : w.replicas ≤ w.shards.length)
+    (hne : stopsEarly (inputOf env w [] false) = false)
+    (hnc : (cycle swr sc (inputOf env w [] false)).crashed = false)
+    (hnd : ∀ sh ∈ w.running, (statusOf sh).keys.Nodup)
+    {i j : Nat} {shi shj : Shard} {h : Hash} {vi vj : St} (hij : i < j) (ha : h ∈ w.active)
+    (hri : w.running[i]? = some shi) (hgi : (statusOf shi).get h = some vi) (hni : vi.state = .normal) (h3i : 3 ≤ vi.times)
+    (hrj : w.running[j]? = some shj) (hgj : (statusOf shj).get h = some vj) (hnj : vj.state = .normal) (h3j : 3 ≤ vj.times)
+    (hothers : ∀ k shk, w.running[k]? = some shk → k ≠ i → k ≠ j → (statusOf shk).get h = none) :
+    ∀ (a b : Nat) (sha shb : Shard) (ra rb : St), a ≠ b → a < w.replicas → b < w.replicas →
+      (applyOutcome w [] (cycle swr sc (inputOf env w [] false))).shards[a]? = some sha →
+      (applyOutcome w [] (cycle swr sc (inputOf env w [] false))).shards[b]? = some shb →
+      (statusOf sha).get h = some ra → (statusOf shb).get h = some rb →
+      ra.state = .normal → rb.state = .normal → False := by
+  have hndI : ∀ p ∈ (inputOf env w [] false).probes, (reported p).keys.Nodup := by
+    intro p hpm
+    obtain ⟨k, hk⟩ := List.getElem?_of_mem hpm
+    have hkl : k < w.running.length := by
+      have := (List.getElem?_eq_some_iff.mp hk).1
+      rw [inputOf_probes_length] at this; exact this
+    have hrk : w.running[k]? = some w.running[k] := by simp [hkl]
+    have := inputOf_probe env w k _ hrk
+    rw [hk] at this
+    cases this
+    rw [reported_probeOf]
+    exact hnd _ (List.mem_of_getElem? hrk)
+  apply loop_oneNormal swr env w sc h hrep hne hnc hnd
+  apply startCS_oneNormal_of_dup (inputOf env w [] false) hndI hij ha
+    (inputOf_probe env w i shi hri) (probeOf_inSync env shi) (by rw [reported_probeOf]; exact hgi) hni h3i
+    (inputOf_probe env w j shj hrj) (probeOf_inSync env shj) (by rw [reported_probeOf]; exact hgj) hnj h3j
+  intro k pk hpk hki hkj _
+  have hkl : k < w.running.length := by
+    have := (List.getElem?_eq_some_iff.mp hpk).1
+    rw [inputOf_probes_length] at this; exact this
+  have hrk : w.running[k]? = some w.running[k] := by simp [hkl]
+  have := inputOf_probe env w k _ hrk
+  rw [hpk] at this
+  cases this
+  rw [reported_probeOf]
+  exact hothers k _ hrk hki hkj
+
+end Kvass.Loop
+
+namespace Kvass.Loop
+open Kvass Kvass.Coord Kvass.Spec
+
+/-- **closed loop: a scraped target stays scraped.**  If some running sidecar reports a discovered
+    target, then after the requests of one full, crash-free, fault-free cycle some running sidecar
+    still reports it. -/
+theorem loop_keep (swr : Swr) (env : Env) (w : World) (sc : Sched)
+    (hrep : w.replicas ≤ w.shards.length)
+    (hne : stopsEarly (inputOf env w [] false) = false)
+    (hnc : (cycle swr sc (inputOf env w [] false)).crashed = false)
+    (hnd : ∀ sh ∈ w.running, (statusOf sh).keys.Nodup)
+    {i : Nat} {sh : Shard} {h : Hash} (hrun : w.running[i]? = some sh)
+    (hr : (statusOf sh).has h = true) (ha : h ∈ w.active) :
+    ∃ (d : Nat) (shd : Shard), d < w.replicas ∧
+      (applyOutcome w [] (cycle swr sc (inputOf env w [] false))).shards[d]? = some shd ∧
+      (statusOf shd).has h = true := by
+  have hrl := running_length w hrep
+  have prov := cycle_prov swr sc (inputOf env w [] false) hne
+  have hp := inputOf_probe env w i sh hrun
+  obtain ⟨y, sy, hy, hgy⟩ := prov.kept i _ h hp (by rw [reported_probeOf]; exact hr) ha
+  have hy' : (cycle swr sc (inputOf env w [] false)).final[y]? = some sy := hy
+  have hyl : y < w.running.length := by
+    have h1 := (List.getElem?_eq_some_iff.mp hy').1
+    have h2 := final_length' swr sc (inputOf env w [] false) hne
+    rw [h2, inputOf_probes_length] at h1
+    exact h1
+  have hry : w.running[y]? = some w.running[y] := by simp [hyl]
+  obtain ⟨fin, shy', hfin, hshy', hkeys, _⟩ := applyOutcome_report swr env w sc hrep hne hnc hnd y _ hry
+  rw [hy'] at hfin; cases hfin
+  cases hg : sy.scraping.get h with
+  | none => exact absurd hg hgy
+  | some v =>
+    have hpk : h ∈ (planned w.active sy).keys :=
+      AL.get_some_mem_keys _ _ _ (planned_get_of w.active sy h v ha hg)
+    have hk := (hkeys h).mpr hpk
+    exact ⟨y, shy', by rw [← hrl]; exact hyl, hshy', (AL.has_iff _ _).mpr (AL.mem_keys_get _ _ hk)⟩
+
+end Kvass.Loop
